@@ -52,6 +52,10 @@ PROFILES = {
     "unprintable": st.one_of(K, K, GR("repr")),
     "inexact": st.one_of(INEXACT_FLOATS, INEXACT_FLOATS, st.integers(-2, 5).map(lambda n: ["i", n])),
     "item": K,
+    # not a total order: NaN among floats (one NaN object, possibly several times) - what a comparison sort or a
+    # running minimum makes of it depends on the exact sequence of comparisons, which is the stdlib's
+    "partial": st.one_of(st.integers(-4, 8).map(lambda n: ["f", n / 2]), st.integers(-4, 8).map(lambda n: ["f", n / 2]),
+                         st.just(["nan"]), st.integers(-2, 3).map(lambda n: ["i", n])),
     # a class with only __lt__ plus functools.total_ordering and identity equality (ties: a > b and b > a)
     "ltonly": st.integers(0, 3).map(lambda k: ("LT", k)),
     # mixed truthiness; occasionally a data item that is itself awaitable (must never be awaited)
